@@ -1,7 +1,9 @@
-"""Driver `conc` (C05): two model threads, each running one real API call from source, serialised by a baton.
-Scheduling points = acquisitions of tracked locks (per-topic ColReaderInfo lock, writer mutexes, the reader map)
-and the batch flag atomics; a thread blocked on a held lock is not runnable. The schedule is a sequence of
-driver decisions in the re-execution vector, so every schedule within the bound is explored."""
+"""Driver `conc` (C05): two or three model threads, each running real API calls from source, serialised by a baton.
+Scheduling points = the calls `crate::wal::verif::sched_point(site)` in the source (cfg(walrus_verif) hook lines,
+interpreted only by this driver): named points of the read/append paths at which the calling thread holds no lock.
+Between two points a thread runs alone (natively the controller of the replayer enforces the same). The schedule is
+a sequence of driver decisions in the re-execution vector, so every schedule within the preemption bound is explored;
+the list of threads released at successive points is the replay schedule."""
 import threading
 
 import z3
@@ -23,19 +25,13 @@ class Sched:
         self.error = None
         self.aborting = False
         self.switches = 0
+        self.preemptions = 0
+        self.max_preemptions = 2
         self.trace = []
+        self.sites = []
 
     def runnable(self):
-        out = []
-        for t in self.threads:
-            if t.finished:
-                continue
-            l = t.blocked_on
-            if l is not None:
-                if l.owner not in (None, t) or (t.want_mode == 'write' and l.readers and not (l.readers == {t})):
-                    continue
-            out.append(t)
-        return out
+        return [t for t in self.threads if not t.finished]
 
     def pick(self, me):
         c = self.runnable()
@@ -43,15 +39,21 @@ class Sched:
             return None
         if len(c) == 1:
             return c[0]
-        first = me if me in c else c[0]
-        others = [t for t in c if t is not first]
-        # one decision per alternative thread (2 threads: a single flip)
-        for o in others:
-            if not self.x.flip('sched%d_stay' % self.switches):
+        if me is not None and me in c:
+            # preemption bound: switching away from a thread that could go on counts
+            if self.preemptions >= self.max_preemptions:
+                return me
+            for o in [t for t in c if t is not me]:
+                if self.x.flip('sched%d_preempt_by_%s' % (self.switches, o.name)):
+                    self.preemptions += 1
+                    return o
+            return me
+        for o in c[:-1]:
+            if self.x.flip('sched%d_start_%s' % (self.switches, o.name)):
                 return o
-        return first
+        return c[-1]
 
-    def switch_from(self, me):
+    def switch_from(self, me, site=None):
         self.switches += 1
         if self.switches > 400:
             self.error = Incomplete('unwinding bound: scheduling points')
@@ -65,44 +67,15 @@ class Sched:
         nxt = self.pick(me)
         if nxt is None:
             self.main_evt.set()
-            if me is not None and not me.finished:
-                me.wait()
-                me.restore(self.x)
-            return
-        if nxt is me:
             return
         self.trace.append(nxt.name)
+        self.sites.append((me.name if me else None, site))
+        if nxt is me:
+            return
         nxt.go.set()
         if me is not None and not me.finished:
             me.wait()
             me.restore(self.x)
-
-    def acquire(self, t, lock, mode):
-        self.switch_from(t)                      # scheduling point before the acquisition
-        while True:
-            free = lock.owner in (None, t) and (mode == 'read' or not lock.readers or lock.readers == {t})
-            if free:
-                break
-            t.blocked_on, t.want_mode = lock, mode
-            self.switch_from(t)
-        t.blocked_on = None
-        if mode == 'read':
-            if not isinstance(lock.readers, set):
-                lock.readers = set()
-            lock.readers.add(t)
-        else:
-            lock.owner = t
-        t.held.append((lock, mode))
-
-    def release(self, t, lock):
-        for i, (l, m) in enumerate(t.held):
-            if l is lock:
-                del t.held[i]
-                if m == 'read':
-                    lock.readers.discard(t)
-                else:
-                    lock.owner = None
-                return
 
 
 class MThread:
@@ -141,8 +114,6 @@ class MThread:
             return
         except BaseException as e:           # PathEnd / Unsupported / Panic ... are re-raised in the main thread
             self.s.error = self.s.error or e
-        for l, m in list(self.held):
-            self.s.release(self, l)
         self.finished = True
         try:
             self.s.switch_from(self)
@@ -160,39 +131,25 @@ def cur_thread():
     return getattr(CUR, 't', None)
 
 
-OPS = {'n': 'read_next', 'b': 'batch_read', 'a': 'append', 'A': 'batch_append'}
-
-
 def mk(docs, job, cfg):
+    from .. import core
+    core.EXTRA_CFGS.add('cfg(walrus_verif)')          # the hook lines are part of the program for this driver
     cfg = dict(cfg, **job.get('cfg', {}))
     x = engine.mk_exec(docs, cfg)
-    prefix = job.get('prefix', 'a')          # sequential prefix: string of a/A2/n
-    t_ops = job['threads']                   # e.g. ['n', 'n'] or ['a', 'n'] or ['A', 'b']
+    prefix = job.get('prefix', 'a')          # sequential prefix: comma list of a / A<n> / n
+    t_ops = [t.split(',') for t in job['threads']]     # e.g. ['n', 'n'] or ['a,a', 'n,n'] or ['A2', 'b']
     consistency = job.get('consistency', 'StrictlyAtOnce')
     sizecap = job.get('sizecap', 4096)
 
-    def tracked(lock):
-        v = lock.cell.v
-        if isinstance(v, Struct) and v.name in ('ColReaderInfo', 'Block'):
-            return True
-        if isinstance(v, BV):                       # Writer.current_offset
-            return True
-        return isinstance(v, VMap)                  # reader map / writers map / counts
-
-    def on_acquire(lock, mode):
-        t = cur_thread()
-        if t is not None and tracked(lock):
-            x.sched.acquire(t, lock, mode)
-
-    def on_release(g):
+    def f_sched_point(x, a, e):
         t = cur_thread()
         if t is not None:
-            x.sched.release(t, g.lock)
-
-    def on_atomic(a):
-        t = cur_thread()
-        if t is not None and getattr(a, 'bits', None) is None:      # AtomicBool (batch flag)
-            x.sched.switch_from(t)
+            site = x.deref(a[0])
+            x.sched.switch_from(t, getattr(site, 'v', str(site)))
+        return UNIT
+    x.fn_models['crate::wal::verif::sched_point'] = f_sched_point
+    x.fn_models['crate::wal::verif::io_event'] = lambda x, a, e: UNIT
+    x.fn_models['crate::wal::verif::fault'] = lambda x, a, e: False
 
     def driver(x):
         engine.new_world(x, fd_backend=job.get('backend', 'fd') == 'fd')
@@ -201,145 +158,168 @@ def mk(docs, job, cfg):
         w = r.f[0]
         vars_ = []
         uid = 0
-        queue = []
         sizes = {}
+        producer = {}          # uid -> producer name ('P' = prefix, 'T<i>')
+        batch_of = {}          # uid -> batch id
         ops_out = []
+        nb = [0]
 
-        def new_entries(n):
+        def new_entries(n, who):
             nonlocal uid
             ents = []
+            nb[0] += 1
             for _ in range(n):
                 s = x.symbv('size%d' % uid)
                 x.solver.add(z3.ULE(s.t, sizecap), z3.UGE(s.t, 1))
                 vars_.append(('size%d' % uid, s.t))
                 sizes[uid] = s
+                producer[uid] = who
+                batch_of[uid] = nb[0]
                 ents.append(uid)
                 uid += 1
             return ents
-        delivered_seq = 0
-        for tok in [p for p in prefix.split(',') if p]:
+
+        def identify(en):
+            cands = [u for u in sizes if (lambda eq: eq is True or (eq is not False and x.valid(eq)))(engine.entry_is(x, en, u, sizes[u].t))]
+            return cands[0] if cands else None
+        acked = []             # (uid) of successful appends, any producer
+        consumed_prefix = []
+        for tok in [p_ for p_ in prefix.split(',') if p_]:
             if tok[0] == 'a':
-                e = new_entries(1)
+                e = new_entries(1, 'P')
                 res = engine.api(x, w, 'append_for_topic', [PStr('t'), engine.payload(e[0], sizes[e[0]].t)])
                 ops_out.append(dict(op='append', topic='t', entries=[dict(uid=e[0], len='size%d' % e[0])]))
-                queue += e
+                if res.variant == 'Ok':
+                    acked += e
             elif tok[0] == 'A':
-                e = new_entries(int(tok[1:] or 2))
+                e = new_entries(int(tok[1:] or 2), 'P')
                 res = engine.api(x, w, 'batch_append_for_topic', [PStr('t'), VVec([engine.payload(u, sizes[u].t) for u in e])])
                 ops_out.append(dict(op='batch_append', topic='t', entries=[dict(uid=u, len='size%d' % u) for u in e]))
-                queue += e
+                if res.variant == 'Ok':
+                    acked += e
             elif tok[0] == 'n':
                 res = engine.api(x, w, 'read_next', [PStr('t'), True])
                 ops_out.append(dict(op='read_next', topic='t', checkpoint=True))
                 if res.variant == 'Ok' and x.deref(res.f[0]).variant == 'Some':
-                    delivered_seq += 1
+                    consumed_prefix.append(identify(x.deref(res.f[0]).f[0]))
         sched = Sched(x)
+        sched.max_preemptions = job.get('preemptions', 2)
         x.sched = sched
-        x.on_acquire, x.on_release, x.on_atomic = on_acquire, on_release, on_atomic
-        budgets = []
-        thread_entries = {}
+        thread_script = []     # per thread: list of op dicts for the replayer
+        plans = []
+        for i, ops in enumerate(t_ops):
+            plan, script = [], []
+            for j, op in enumerate(ops):
+                if op[0] == 'a':
+                    e = new_entries(1, 'T%d' % i)
+                    plan.append(('a', e))
+                    script.append(dict(op='append', topic='t', entries=[dict(uid=e[0], len='size%d' % e[0])]))
+                elif op[0] == 'A':
+                    e = new_entries(int(op[1:] or 2), 'T%d' % i)
+                    plan.append(('A', e))
+                    script.append(dict(op='batch_append', topic='t', entries=[dict(uid=u, len='size%d' % u) for u in e]))
+                elif op[0] == 'n':
+                    plan.append(('n', None))
+                    script.append(dict(op='read_next', topic='t', checkpoint=True))
+                elif op[0] == 'b':
+                    b = x.symbv('budget%d_%d' % (i, j))
+                    vars_.append(('budget%d_%d' % (i, j), b.t))
+                    plan.append(('b', b))
+                    script.append(dict(op='batch_read', topic='t', checkpoint=True, budget='budget%d_%d' % (i, j)))
+            plans.append(plan)
+            thread_script.append(script)
 
-        def mkthread(i, op):
+        def mkthread(i):
             def fn():
-                if op == 'n':
-                    res = engine.api(x, w, 'read_next', [PStr('t'), True])
-                    if res.variant != 'Ok':
-                        return ('err', res.variant)
-                    o = x.deref(res.f[0])
-                    return ('read', [o.f[0]] if o.variant == 'Some' else [])
-                if op == 'b':
-                    res = engine.api(x, w, 'batch_read_for_topic', [PStr('t'), budgets[i], True, NONE])
-                    if res.variant != 'Ok':
-                        return ('err', res.variant)
-                    return ('read', list(x.deref(res.f[0]).items))
-                if op == 'a':
-                    u = thread_entries[i][0]
-                    res = engine.api(x, w, 'append_for_topic', [PStr('t'), engine.payload(u, sizes[u].t)])
-                    return ('append', res.variant)
-                if op == 'A':
-                    res = engine.api(x, w, 'batch_append_for_topic', [PStr('t'), VVec([engine.payload(u, sizes[u].t) for u in thread_entries[i]])])
-                    return ('append', res.variant if res.variant != 'Err' else 'Err:' + engine.errkind(x, res))
+                out = []
+                for kind, arg in plans[i]:
+                    if kind == 'n':
+                        res = engine.api(x, w, 'read_next', [PStr('t'), True])
+                        if res.variant != 'Ok':
+                            out.append(('err', res.variant))
+                            continue
+                        o = x.deref(res.f[0])
+                        out.append(('read', [o.f[0]] if o.variant == 'Some' else []))
+                    elif kind == 'b':
+                        res = engine.api(x, w, 'batch_read_for_topic', [PStr('t'), arg, True, NONE])
+                        out.append(('read', list(x.deref(res.f[0]).items)) if res.variant == 'Ok' else ('err', res.variant))
+                    elif kind == 'a':
+                        res = engine.api(x, w, 'append_for_topic', [PStr('t'), engine.payload(arg[0], sizes[arg[0]].t)])
+                        out.append(('append', res.variant, arg))
+                    elif kind == 'A':
+                        res = engine.api(x, w, 'batch_append_for_topic', [PStr('t'), VVec([engine.payload(u, sizes[u].t) for u in arg])])
+                        out.append(('append', res.variant, arg))
+                return out
             return MThread(sched, 'T%d' % i, fn)
-        for i, op in enumerate(t_ops):
-            if op == 'b':
-                b = x.symbv('budget%d' % i)
-                vars_.append(('budget%d' % i, b.t))
-                budgets.append(b)
-            else:
-                budgets.append(None)
-            if op == 'a':
-                thread_entries[i] = new_entries(1)
-            elif op == 'A':
-                thread_entries[i] = new_entries(2)
-        ths = [mkthread(i, op) for i, op in enumerate(t_ops)]
+        ths = [mkthread(i) for i in range(len(t_ops))]
         sched.threads = ths
         for t in ths:
             t.th.start()
         try:
-            sched.switch_from(None)
-            sched.main_evt.wait(120)
+            sched.switch_from(None, 'start')
+            sched.main_evt.wait(300)
         finally:
             if not all(t.finished for t in ths):
                 sched.aborting = True
                 for t in ths:
                     t.go.set()
-            x.on_acquire = x.on_release = x.on_atomic = None
             for t in ths:
                 t.th.join(5)
         x.stack, x.tys, x.type_hint, x.pure = [], [], None, 0
         if sched.error:
             raise sched.error
-        # ---- oracle: linearised union of consuming reads = exactly-once, per-producer order, batch contiguity
-        appended_ok = list(queue)
-        for i, op in enumerate(t_ops):
-            if op in ('a', 'A') and ths[i].result == ('append', 'Ok'):
-                appended_ok_extra = thread_entries[i]
-            else:
-                appended_ok_extra = []
-            appended_ok += appended_ok_extra
-        got = []
-        per_thread = []
-        for i, op in enumerate(t_ops):
-            r_ = ths[i].result
-            if r_ and r_[0] == 'read':
-                ids = []
-                for en in r_[1]:
-                    cands = [u for u in sizes if (lambda eq: eq is True or (eq is not False and x.valid(eq)))(engine.entry_is(x, en, u, sizes[u].t))]
-                    ids.append(cands[0] if len(cands) == 1 else (cands[0] if cands else None))
-                per_thread.append(ids)
-                got += ids
-            else:
-                per_thread.append(r_)
-        # after the concurrent phase drain sequentially
+        if not all(t.finished for t in ths):
+            raise Incomplete('a model thread did not finish')
+        # ---- oracle
+        delivered = []         # list of sequences (one per consuming call, then the drain)
+        panics = []
+        for i, t in enumerate(ths):
+            for r_ in t.result or []:
+                if r_[0] == 'append' and r_[1] == 'Ok':
+                    acked += r_[2]
+                elif r_[0] == 'append' and r_[1] == 'Panic':
+                    panics.append('append in T%d panicked' % i)
+                elif r_[0] == 'read':
+                    delivered.append(('T%d' % i, [identify(en) for en in r_[1]]))
+                elif r_[0] == 'err' and r_[1] == 'Panic':
+                    panics.append('read in T%d panicked' % i)
         drained = []
-        for _ in range(len(appended_ok) + 2):
+        for _ in range(len(sizes) + 2):
             res = engine.api(x, w, 'read_next', [PStr('t'), True])
             if res.variant != 'Ok':
                 break
             o = x.deref(res.f[0])
             if o.variant != 'Some':
                 break
-            cands = [u for u in sizes if (lambda eq: eq is True or (eq is not False and x.valid(eq)))(engine.entry_is(x, o.f[0], u, sizes[u].t))]
-            drained.append(cands[0] if cands else None)
-        pending = appended_ok[delivered_seq:]
-        alld = got + drained
+            drained.append(identify(o.f[0]))
+        delivered.append(('drain', drained))
+        alld = [u for _, seq in delivered for u in seq]
+        pending = [u for u in acked if u not in consumed_prefix]
         bad = None
-        dup = [u for u in set(alld) if u is not None and alld.count(u) > 1]
-        if dup:
-            bad = ('duplicate', 'entry %s was returned by %d consuming reads (threads %s, then drain %s)' % (dup[0], alld.count(dup[0]), per_thread, drained))
+        dup = [u for u in set(alld) if u is not None and (alld.count(u) > 1 or u in consumed_prefix)]
+        if panics:
+            bad = ('panic', panics[0])
+        elif dup:
+            bad = ('duplicate', 'entry %s was returned by %d consuming reads: %s' % (dup[0], alld.count(dup[0]) + (1 if dup[0] in consumed_prefix else 0), delivered))
         elif None in alld:
-            bad = ('foreign', 'a consuming read returned a payload that is no appended entry (%s / %s)' % (per_thread, drained))
+            bad = ('foreign', 'a consuming read returned a payload that is no appended entry: %s' % (delivered,))
         elif sorted(alld) != sorted(pending):
             lost = [u for u in pending if u not in alld]
-            bad = ('lost', 'entries %s were appended successfully and never returned (threads %s, drain %s)' % (lost, per_thread, drained))
+            extra = [u for u in alld if u not in pending]
+            bad = ('lost', 'entries %s were appended successfully and never returned; unexpected %s (delivered %s)' % (lost, extra, delivered)) if lost else \
+                  ('phantom', 'entries %s were returned although their append did not succeed (delivered %s)' % (extra, delivered))
         else:
-            # batch contiguity / producer order inside each single read result and in the drain
-            for seq in [ids for ids in per_thread if isinstance(ids, list)] + [drained]:
-                pos = [pending.index(u) for u in seq]
-                if pos != sorted(pos):
-                    bad = ('order', 'a read returned entries out of append order: %s' % seq)
-        res_out = dict(job=job, threads=t_ops, schedule=list(sched.trace), per_thread=[p if isinstance(p, list) else list(p) if p else None for p in per_thread],
-                       drained=drained, ops=ops_out, thread_entries={str(k): v for k, v in thread_entries.items()})
+            for who, seq in delivered:
+                # per producer: append order; a batch contiguous within one returned sequence
+                for pr in set(producer[u] for u in seq):
+                    sub = [u for u in seq if producer[u] == pr]
+                    if sub != sorted(sub):
+                        bad = ('order', '%s returned entries of producer %s out of append order: %s' % (who, pr, seq))
+                for k in range(1, len(seq) - 1):
+                    if batch_of[seq[k - 1]] == batch_of[seq[k + 1]] != batch_of[seq[k]]:
+                        bad = ('batch-split', '%s returned an entry of another append inside a batch: %s' % (who, seq))
+        res_out = dict(job=job, threads=job['threads'], schedule=list(sched.trace), sites=[list(s_) for s_ in sched.sites], delivered=[[w_, q] for w_, q in delivered],
+                       ops=ops_out, thread_ops=thread_script, acked=acked)
         if bad:
             res_out.update(verdict='cex', kind=bad[0], detail=bad[1], witness=minimise(x, list(vars_)))
         else:
